@@ -497,12 +497,16 @@ type State struct {
 	qfSeen     map[string]bool // rendered quantified assumptions already in the path condition
 	applied    map[string]bool // pure applications whose contract instance was already assumed on this path
 	depth      int
+	// objects allocated by this activation, and those of them whose reference has been handed to a callee or stored somewhere:
+	// a pointer that comes back from a callee cannot be one of the others
+	freshList []string
+	escRefs   map[string]bool
 }
 
 func (st *State) clone() *State {
 	n := &State{
 		env: make(map[ssa.Value]Val, len(st.env)), heap: make(map[string]*HArr, len(st.heap)), lazy: make(map[string]*Lazy, len(st.lazy)),
-		epoch: st.epoch, hv: st.hv, hvF: st.hvF, escaped: st.escaped, keepFn: st.keepFn, epochAlloc: st.epochAlloc, pc: st.pc[:len(st.pc):len(st.pc)], held: make(map[string]string, len(st.held)), alloc: st.alloc,
+		epoch: st.epoch, hv: st.hv, hvF: st.hvF, escaped: st.escaped, keepFn: st.keepFn, freshList: st.freshList[:len(st.freshList):len(st.freshList)], escRefs: copyBoolMap(st.escRefs), epochAlloc: st.epochAlloc, pc: st.pc[:len(st.pc):len(st.pc)], held: make(map[string]string, len(st.held)), alloc: st.alloc,
 		ghost: make(map[string]Val, len(st.ghost)), idx: st.idx[:len(st.idx):len(st.idx)], keys: st.keys[:len(st.keys):len(st.keys)],
 		visited: make(map[ssa.Value]string, len(st.visited)), depth: st.depth, visitedKey: st.visitedKey,
 		dbg: make(map[string]Val, len(st.dbg)), dbgAddr: make(map[string]Val, len(st.dbgAddr)), applied: make(map[string]bool, len(st.applied)),
@@ -624,3 +628,28 @@ func stripComp(key string) string {
 }
 
 var typesUntypedInt types.Type = types.Typ[types.UntypedInt]
+
+func copyBoolMap(m map[string]bool) map[string]bool {
+	out := make(map[string]bool, len(m))
+	for k, v := range m {
+		out[k] = v
+	}
+	return out
+}
+
+// markEscaping records the fresh objects mentioned by the given terms as escaped
+func (st *State) markEscaping(terms []string) {
+	for _, t := range terms {
+		if !strings.Contains(t, "ref!") {
+			continue
+		}
+		for _, f := range st.freshList {
+			if !st.escRefs[f] && strings.Contains(t, f) {
+				if st.escRefs == nil {
+					st.escRefs = map[string]bool{}
+				}
+				st.escRefs[f] = true
+			}
+		}
+	}
+}
